@@ -203,3 +203,22 @@ func SpecIn(k uint64) uint8 { panic("abstract spec function") }
 //@   ensures int16_stands_for_its_decimal_text: result1 == nil && SpecIn(old(rdbAt)) == 0xC1 ==> string(result0) == types.SpecDec(int64(int16(uint16(SpecIn(old(rdbAt) + 1)) | uint16(SpecIn(old(rdbAt) + 2)) << 8))) && rdbAt == old(rdbAt) + 3
 //@   ensures int32_stands_for_its_decimal_text: result1 == nil && SpecIn(old(rdbAt)) == 0xC2 ==> string(result0) == types.SpecDec(int64(int32(uint32(SpecIn(old(rdbAt) + 1)) | uint32(SpecIn(old(rdbAt) + 2)) << 8 | uint32(SpecIn(old(rdbAt) + 3)) << 16 | uint32(SpecIn(old(rdbAt) + 4)) << 24))) && rdbAt == old(rdbAt) + 5
 //@   ensures an_unknown_special_encoding_is_refused: SpecIn(old(rdbAt)) >> 6 == 3 && SpecIn(old(rdbAt)) & 0x3f > 3 ==> result1 != nil
+
+// ---- LZF (liblzf lzf_d.c): a control byte below 32 announces ctrl+1 literal bytes, any other a
+// back reference: the next len+2 output bytes repeat the output `dist` bytes back, byte by byte -
+// a reference may reach into the bytes it is producing (dist smaller than its length), which is
+// how runs are encoded; a block move of the referenced range is not the same thing. ----
+//   dist  distance of the back reference being expanded (ghost: read when its copy loop starts)
+
+//@ func body:lzfDecompress
+//@   arith int
+//@   properties C03
+//@   ghost var dist mathint = 0
+//@   set dist = ite(x#2 == 0, o - ref, dist) after store x#2
+//@   ensures announced_length: err == nil ==> len(out) == outlen
+//@   loop 1:
+//@     invariant cursors: 0 <= i && 0 <= o && o <= len(out) && len(out) == outlen && fresh(out)
+//@   loop 2:
+//@     invariant a_literal_run_is_the_input_bytes: 0 <= x#1 && x#1 <= o && 0 <= i && o <= len(out) && len(out) == outlen && fresh(out) && (forall j int :: o - x#1 <= j && j < o ==> out[j] == in[j + (i - o)])
+//@   loop 3:
+//@     invariant a_back_reference_repeats_the_output_byte_by_byte: 0 <= x#2 && x#2 <= o && 0 <= i && o <= len(out) && len(out) == outlen && fresh(out) && o - ref == dist && (forall j int :: o - x#2 <= j && j < o ==> out[j] == out[j - dist])
